@@ -195,6 +195,8 @@ func (m *model) numStr(n float64) string {
 	return strconv.FormatFloat(n, f[len(f)-1], prec, 64)
 }
 
+var undefinedNumericRE = regexp.MustCompile(`(?i)^[ \t\n\v\f\r]*[+-]?(nan|inf|0x)`)
+
 func numPrefix(s string) float64 {
 	s = strings.TrimLeft(s, " \t\n\v\f\r") // strtod skips all isspace characters
 	re := regexp.MustCompile(`^[+-]?([0-9]+\.?[0-9]*|\.[0-9]+)([eE][+-]?[0-9]+)?`)
@@ -618,6 +620,15 @@ func run(x *h.Ctx, c Case) string {
 		case "fs", "ofs", "outmode":
 			if assignAfterSplit {
 				sepChange = true
+			}
+		}
+		switch op.Kind {
+		case "incr", "decr", "aug":
+			// arithmetic on text that spells a non-finite or hexadecimal number: what number it stands for is
+			// not defined by POSIX (goawk reads "nan" as NaN, the model as 0); thorough run, seed 7: record "nan", $1++
+			if undefinedNumericRE.MatchString(m.getField(op.I)) {
+				x.Discard("arithmetic on a nan / inf / hexadecimal spelling")
+				return ""
 			}
 		}
 		if m.apply(op) == "error" {
